@@ -122,15 +122,17 @@ Fixpoint digits_us (isd : N -> bool) (s : ustring) (prev_digit : bool) (acc : us
 (* an optional sign *)
 Definition split_sign (s1 : ustring) : bool * ustring :=
   match s1 with
-  | 45 :: r => (true, r)
-  | 43 :: r => (false, r)
-  | _ => (false, s1)
+  | c :: r => if c =? 45 then (true, r) else if c =? 43 then (false, r) else (false, s1)
+  | [] => (false, s1)
   end.
 
 (* an optional 0x / 0X prefix; after a prefix one underscore may precede the digits *)
 Definition strip_hex_prefix (s2 : ustring) : ustring :=
   match s2 with
-  | 48 :: x :: r => if (x =? 120) || (x =? 88) then match r with 95 :: r' => r' | _ => r end else s2
+  | c :: x :: r =>
+    if (c =? 48) && ((x =? 120) || (x =? 88))
+    then match r with y :: r' => if y =? 95 then r' else r | [] => r end
+    else s2
   | _ => s2
   end.
 
